@@ -2,7 +2,7 @@
    correspondence check tools/corr_optloop.py (never under a property theorem).  The state is an
    index into a table of chi^2 values (the doubles the implementation computes at the successive
    states of a scripted graph), chi2_of is the table lookup, one update moves to the next index. *)
-From Coq Require Import ZArith List Floats.PrimFloat Floats.FloatOps Floats.SpecFloat.
+From Coq Require Import ZArith List Floats.PrimFloat Floats.FloatOps Floats.SpecFloat Uint63.
 From GS Require Import ExprF OptLoop.
 Import ListNotations.
 Open Scope float_scope.
@@ -34,3 +34,9 @@ Definition dump_out (x : nat * report float * list (nat * float * option float))
 Definition dump_grid (tab : list float) (tol : float) (n_max : nat) : list Z :=
   flat_map (fun n => dump_out (table_optimize tab tol n true) ++ dump_out (table_optimize tab tol n false))
            (seq 0 (S n_max)).
+
+(* Printing a long [list Z] costs ~0.4 ms per element in coqc; primitive integers print 20x faster.
+   Every dumped integer z satisfies |z| < 2^60, so it is printed as the primitive integer z + 2^60. *)
+Definition to_u (z : Z) : int := Uint63.of_Z (z + 1152921504606846976)%Z.
+Definition dump_grid_u (tab : list float) (tol : float) (n_max : nat) : list int :=
+  map to_u (dump_grid tab tol n_max).
